@@ -69,7 +69,17 @@ impl Submissions {
         // here because we're holding the submission lock and thus are the only
         // ones writing to it (but other threads and the kernel can read it).
         let new_tail = tail.wrapping_add(1);
+        #[cfg(a10_verif)]
+        crate::verif::yield_point(
+            crate::verif::Site::SqTailStore,
+            shared.submissions_tail.addr().get(),
+        );
         unsafe { (*shared.submissions_tail.as_ptr()).store(new_tail, Ordering::Release) }
+        #[cfg(a10_verif)]
+        crate::verif::yield_point(
+            crate::verif::Site::SqTailStored,
+            shared.submissions_tail.addr().get(),
+        );
 
         log::trace!(submission:?, index, tail, new_tail; "queueing submission");
         // NOTE: poisoned above.
